@@ -12,6 +12,7 @@ import (
 	"github.com/icon-project/goloop/common/containerdb"
 	"github.com/icon-project/goloop/common/crypto"
 	"github.com/icon-project/goloop/common/db"
+	"github.com/icon-project/goloop/common/trie"
 	"github.com/icon-project/goloop/common/trie/trie_manager"
 	"pgregory.net/rapid"
 
@@ -241,6 +242,9 @@ func (s *c21mapStore) DeleteValue(k []byte) ([]byte, error) {
 type c21array struct {
 	base []c21part
 	ref  [][]byte
+	// two long-lived handles (created on first use, kept across later operations and across roll-backs of the store,
+	// the way icstate keeps its ArrayDB while the state is reset)
+	h [2]*containerdb.ArrayDB
 }
 type c21dict struct {
 	base  []c21part
@@ -461,11 +465,25 @@ func TestC21(t *testing.T) {
 			kind := builders[rapid.IntRange(0, 2).Draw(rt, "builder")]
 			var store containerdb.BytesStoreState
 			useTrie := rapid.IntRange(0, 3).Draw(rt, "trieStore") == 0
+			var tm trie.Mutable
+			var ms *c21mapStore
 			if useTrie {
-				store = containerdb.NewBytesStoreStateFromRaw(trie_manager.NewMutable(db.NewMapDB(), nil))
+				tm = trie_manager.NewMutable(db.NewMapDB(), nil)
+				store = containerdb.NewBytesStoreStateFromRaw(tm)
 			} else {
-				store = &c21mapStore{map[string][]byte{}}
+				ms = &c21mapStore{map[string][]byte{}}
+				store = ms
 			}
+			// roll-back support: a saved point of the store and of the reference model
+			type c21save struct {
+				snap   trie.Snapshot
+				m      map[string][]byte
+				arrays [][][]byte
+				dicts  []map[string][]byte
+				vars   [][]byte
+			}
+			var saved *c21save
+			rollbacks, liveHandleOps := 0, 0
 			root := func(typeByte byte, name string) ([]c21part, containerdb.KeyBuilder) {
 				base := []c21part{{typeByte, []byte{typeByte}, fmt.Sprintf("byte:%02x", typeByte)}, {name, []byte(name), "str:" + c21Short([]byte(name))}}
 				if kind.kind == containerdb.PrefixedHashBuilder {
@@ -554,6 +572,19 @@ func TestC21(t *testing.T) {
 					if v := adb.Get(len(a.ref)); v != nil {
 						fail("after %s: array %s of length %d returns %x at index %d", after, c21TupleString(a.base), len(a.ref), v.Bytes(), len(a.ref))
 					}
+					for hi, h := range a.h {
+						if h == nil {
+							continue
+						}
+						if h.Size() != len(a.ref) {
+							fail("after %s: array %s has Size()=%d through long-lived handle %d, reference length %d", after, c21TupleString(a.base), h.Size(), hi, len(a.ref))
+						}
+						if n := len(a.ref); n > 0 {
+							if got := valBytes(h.Get(n - 1)); !bytes.Equal(got, a.ref[n-1]) {
+								fail("after %s: array %s last element is %x through long-lived handle %d, reference %x", after, c21TupleString(a.base), got, hi, a.ref[n-1])
+							}
+						}
+					}
 				}
 				for _, d := range dicts {
 					ids := make([]string, 0, len(d.keys))
@@ -597,6 +628,14 @@ func TestC21(t *testing.T) {
 				case ci < len(arrays):
 					a := arrays[ci]
 					adb := containerdb.NewArrayDB(store, kbOf(a.base))
+					if hi := rapid.IntRange(0, 3).Draw(rt, "handle"); hi >= 2 {
+						// a long-lived handle instead of a fresh one
+						if a.h[hi-2] == nil {
+							a.h[hi-2] = adb
+						}
+						adb = a.h[hi-2]
+						liveHandleOps++
+					}
 					switch rapid.IntRange(0, 9).Draw(rt, "aop") {
 					case 0, 1, 2, 3:
 						op = fmt.Sprintf("put(%s,%s)", a.base[len(a.base)-1].s, val)
@@ -706,6 +745,62 @@ func TestC21(t *testing.T) {
 				}
 				ops = append(ops, op)
 				checkAll(op)
+				// save point / roll-back of the whole store (a failed transaction is undone like this); handles stay alive
+				switch rapid.IntRange(0, 11).Draw(rt, "saveOrRollback") {
+				case 0:
+					sv := &c21save{}
+					if useTrie {
+						sv.snap = tm.GetSnapshot()
+					} else {
+						sv.m = map[string][]byte{}
+						for k, v := range ms.m {
+							sv.m[k] = v
+						}
+					}
+					for _, a := range arrays {
+						sv.arrays = append(sv.arrays, append([][]byte{}, a.ref...))
+					}
+					for _, d := range dicts {
+						c := map[string][]byte{}
+						for k, v := range d.ref {
+							c[k] = v
+						}
+						sv.dicts = append(sv.dicts, c)
+					}
+					for _, v := range vars {
+						sv.vars = append(sv.vars, v.ref)
+					}
+					saved = sv
+					ops = append(ops, "save")
+				case 1:
+					if saved != nil {
+						if useTrie {
+							if err := tm.Reset(saved.snap); err != nil {
+								ev.Inconclusive("C21: trie reset: %v", err)
+							}
+						} else {
+							ms.m = map[string][]byte{}
+							for k, v := range saved.m {
+								ms.m[k] = v
+							}
+						}
+						for i, a := range arrays {
+							a.ref = append([][]byte{}, saved.arrays[i]...)
+						}
+						for i, d := range dicts {
+							d.ref = map[string][]byte{}
+							for k, v := range saved.dicts[i] {
+								d.ref[k] = v
+							}
+						}
+						for i, v := range vars {
+							v.ref = saved.vars[i]
+						}
+						rollbacks++
+						ops = append(ops, "rollback")
+						checkAll("rollback")
+					}
+				}
 			}
 			// live storage paths and the non-trivial rule
 			var live [][]c21part
@@ -752,6 +847,15 @@ func TestC21(t *testing.T) {
 			}
 			if siblingOps > 0 {
 				labels = append(labels, "siblingHandlesOfOneSubDict")
+			}
+			if rollbacks > 0 {
+				labels = append(labels, "storeRolledBack")
+			}
+			if liveHandleOps > 0 {
+				labels = append(labels, "longLivedArrayHandles")
+			}
+			if rollbacks > 0 && liveHandleOps > 0 {
+				labels = append(labels, "longLivedArrayHandleAcrossRollback")
 			}
 			rec.Case(desc, ambiguous, labels...)
 		})
